@@ -1162,6 +1162,16 @@ func (g *gen) actCall() bool {
 }
 
 func (g *gen) actCallExisting() bool {
+	if g.r.Chance(1, 5) && len(g.v.Istack()) <= 8 {
+		// call through a pointer that already lives in the state (possibly one that came
+		// out of another script context: that must fault, not jump)
+		if g.pushExisting(func(k kind) bool { return k == kPtr }) {
+			return g.ins(opcode.CALLA)
+		}
+		if g.stopped {
+			return false
+		}
+	}
 	if len(g.funcs) == 0 || len(g.v.Istack()) > 8 {
 		return g.actCall()
 	}
@@ -1572,6 +1582,9 @@ func genOne(r *rng.R, subs []subScript, asSub int) (script []byte, flavor int, h
 			break
 		}
 	}
+	if asSub > 0 && !g.stopped && g.room() && r.Chance(1, 3) {
+		g.pushPointer()
+	}
 	if asSub > 0 && !g.stopped && g.room() {
 		// shape the return values: one value holding everything, nothing, or as is
 		switch r.Intn(6) {
@@ -1604,11 +1617,9 @@ func genNested(r *rng.R) (script []byte, subs []subScript, flavor int, hostile b
 	n := 1 + r.Intn(3)
 	for i := 0; i < n; i++ {
 		na := r.Intn(4)
-		sc, _, h := genOne(r, subs, 1+na)
-		hostile = hostile || h
+		sc, _, _ := genOne(r, subs, 1+na)
 		subs = append(subs, subScript{Script: sc, NArgs: na, Hash: hash.Hash160(sc)})
 	}
-	var h bool
-	script, flavor, h = genOne(r, subs, 0)
-	return script, subs, flavor, hostile || h
+	script, flavor, hostile = genOne(r, subs, 0) // the flag describes the main script only
+	return script, subs, flavor, hostile
 }
